@@ -37,8 +37,12 @@ def run_tv_jobs(rep, jobs, verbose=False, fn=tv_job, timeout=300):
             continue
         rep.add_stats(out['stats'])
         r = out['result']
+        if r.get('exp_spec') is not None:
+            spec = r['exp_spec']
+            job = dict(job, spec=spec, compile_kw=r.get('compile_kw', job.get('compile_kw')))
         base = dict(property=rep.prop, key=key, spec=spec.describe(), spec_blob=tvspec.spec_blob(spec),
-                    job={k: v for k, v in job.items() if k in ('vectorize', 'backend', 'builder', 'compile_kw')})
+                    job={k: str(v) for k, v in job.items() if k in ('vectorize', 'backend', 'builder', 'compile_kw')},
+                    history=r.get('history'))
         if r['status'] == 'compile-raises':
             rec = dict(base, kind='compile-raises', what=f"{key}: well-formed model is rejected: {r['error'][:300]}")
             rep.program(key, nontrivial=False)
